@@ -174,3 +174,44 @@ func Tier() int {
 
 // Underflow reports whether the last Run read past the end of its tape.
 func Underflow() bool { return cur != nil && cur.under }
+
+// Branch-free helpers: natively ordinary Go; under the engine they build one
+// term instead of forking the path (use them in reference oracles).
+func And(a, b bool) bool { return a && b }
+func Or(a, b bool) bool  { return a || b }
+func IteInt(c bool, a, b int) int {
+	if c {
+		return a
+	}
+	return b
+}
+func IteU64(c bool, a, b uint64) uint64 {
+	if c {
+		return a
+	}
+	return b
+}
+func IteU8(c bool, a, b uint8) uint8 {
+	if c {
+		return a
+	}
+	return b
+}
+func IteBool(c bool, a, b bool) bool {
+	if c {
+		return a
+	}
+	return b
+}
+func BytesEq(a, b []byte) bool {
+	if len(a) != len(b) {
+		return false
+	}
+	for i := range a {
+		if a[i] != b[i] {
+			return false
+		}
+	}
+	return true
+}
+func StrEq(a, b string) bool { return a == b }
